@@ -185,6 +185,8 @@ class C04(FprCheck):
             if self._defaults() != defaults_before:
                 return {"key": "mutable-default-mutated", "what": "a mutable default argument changed: %s" % self._defaults()}
             return None
+        if case["t"] != "derived" and case["t"] != "hist":
+            return self._prop_rest(case)
         if case["t"] == "derived":
             import random
             from rdkit import Chem
@@ -199,6 +201,30 @@ class C04(FprCheck):
             fp.run(0, cur)
             for k, e in enumerate(case["edits"]):
                 heavy = [a.GetIdx() for a in cur.GetAtoms() if a.GetAtomicNum() > 1]
+                try:
+                    m = self._derive(cur, e, heavy, rr)
+                except Exception:  # noqa: BLE001  (RDKit refuses the edit - e.g. cannot kekulize after it: not a molecule to fingerprint)
+                    self.count("derived:edit-refused-by-rdkit")
+                    continue
+                if m.GetNumConformers() == 0 or not MG.in_domain(m, o):
+                    continue
+
+                def go(f):
+                    f.run(0, m)
+                    return MG.dump_run(f, qs)
+                x, y = attempt(lambda: go(fp)), attempt(lambda: go(MG.make_fprinter(o)))
+                if x != y:
+                    return {"key": "history-dependent:derived-molecule:" + e,
+                            "what": "step %d: a molecule derived (%s) from the one the fingerprinter just processed gets another fingerprint "
+                                    "than from a fresh fingerprinter" % (k, e), "step": k}
+                cur = m
+            return None
+
+    @staticmethod
+    def _derive(cur, e, heavy, rr):
+        from rdkit import Chem
+        if True:
+            if True:
                 if e == "renumber":
                     p = list(range(cur.GetNumAtoms()))
                     rr.shuffle(p)
@@ -221,19 +247,10 @@ class C04(FprCheck):
                     elif e == "element":
                         a.SetAtomicNum({6: 14, 7: 15, 8: 16, 9: 17, 16: 8, 17: 9}.get(a.GetAtomicNum(), a.GetAtomicNum()))
                 m.UpdatePropertyCache(strict=False)
-                if m.GetNumConformers() == 0 or not MG.in_domain(m, o):
-                    continue
+                Chem.SanitizeMol(Chem.Mol(m))
+                return m
 
-                def go(f):
-                    f.run(0, m)
-                    return MG.dump_run(f, qs)
-                x, y = attempt(lambda: go(fp)), attempt(lambda: go(MG.make_fprinter(o)))
-                if x != y:
-                    return {"key": "history-dependent:derived-molecule:" + e,
-                            "what": "step %d: a molecule derived (%s) from the one the fingerprinter just processed gets another fingerprint "
-                                    "than from a fresh fingerprinter" % (k, e), "step": k}
-                cur = m
-            return None
+    def _prop_rest(self, case):
         if case["t"] == "entry":
             from e3fp.fingerprint.generate import fprints_dict_from_mol
             from harness.fpgen import dump_fp
